@@ -143,8 +143,9 @@ func VHJSONLoad() {
 
 // VHHistory: D operations in a row from the constructor (see VMapHistory).
 func VHHistory() {
-	l := New[int]()
-	lists.VSeqHistory(l, lists.VExt{Name: "DoublyLinkedList", Append: l.Append, Prepend: l.Prepend, IndexOf: l.IndexOf, Inv: func() { VInv(l) }})
+	init := vl.InitArgs()
+	l := New[int](init...)
+	lists.VSeqHistoryFrom(l, append([]int{}, init...), lists.VExt{Name: "DoublyLinkedList", Append: l.Append, Prepend: l.Prepend, IndexOf: l.IndexOf, Inv: func() { VInv(l) }})
 }
 
 // VGStrListOf builds the list of strings holding exactly vals.
